@@ -131,7 +131,10 @@ func StatsEndRPC(
 			BeginTime: beginTime,
 			EndTime:   time.Now(),
 		}
-		if appErr != nil && !errors.Is(appErr, io.EOF) {
+		// A server handler returning io.EOF is not reported as an error (as in
+		// grpc-go's server). On the client io.EOF has no such meaning: a unary
+		// call that failed with it has failed.
+		if appErr != nil && (isClient || !errors.Is(appErr, io.EOF)) {
 			end.Error = appErr
 		}
 		sh.HandleRPC(ctx, end)
